@@ -153,6 +153,7 @@ type runawayPanic struct{}
 
 // Host is the harness state attached to one LState.
 type Host struct {
+	goRuntimeSeen bool
 	L     *lua.LState
 	Main  *lua.LState // the main state when L is a thread created from it (OnThread)
 	Ctx   *SimContext
@@ -396,6 +397,12 @@ func (h *Host) Render(v lua.LValue) string {
 		}
 		if strings.Contains(s, "error in error handling") {
 			return "<fault>"
+		}
+		if strings.Contains(s, "runtime error: ") && !h.goRuntimeSeen {
+			// a Go runtime error (nil dereference, index out of range, ...) that did not come from the injected
+			// host fault was raised inside interpreter code and turned into a Lua error by a protected call
+			h.goRuntimeSeen = true
+			h.Violations = append(h.Violations, "go-runtime-error: a Go runtime error inside the interpreter surfaced as a Lua error value: "+s)
 		}
 		return model.NormalizeString(s)
 	case *lua.LTable:
